@@ -83,6 +83,50 @@ CLAIMS = {
             'keep-* flags, the real filter keeps an entry iff the stated rule holds; peptide kept iff some entry kept; '
             'sequence unchanged; idempotent; miscleavage range exact.',
             'Expression values are integers (real-valued levels outside the claim); labels are concrete strings.'),
+    'C01': (True, CH,
+            'Stage 1 of 5 only: for every reading frame and every compatible subset of <=2 supplied variants (3 for SNVs) '
+            'of every kind/position/length within the bound, the real variant graph (init_three_frames + '
+            'create_variant_graph) contains a path spelling exactly that haplotype. A stage-1 witness is lifted to a '
+            'real callVariant run against a definitional digest before it is reported.',
+            'NARROW CLAIM: codon alignment, translation, cleavage graph and traversal are outside reach (content-hashed '
+            'graph nodes); a defect confined to them is not detected. Known finding: adjacent variants of different '
+            'merge classes (known_findings.txt).'),
+    'C02': (True, CH,
+            'Stage 1 of 5 only: every root-to-leaf path of the real variant graph spells the haplotype of exactly the '
+            'variants annotated on it, and never combines overlapping variants (same bounds as C01).',
+            'NARROW CLAIM: the later graph stages (where the unsound output quoted in the property lives) and the '
+            'timeout retry reducer are outside the claim.'),
+    'C05': (True, 'CrossHair + z3 for implementation == reference model; direct z3 (QF_LIA) for monotonicity of the model',
+            'Kernel level: the real miscleavage enumeration equals a reference model for unbounded symbolic limits '
+            '(chains of 3, thorough 4 nodes); the model is monotone in miscleavage/min/max length for ALL integers (z3); '
+            'size predicates monotone; enabling W>F only adds sequences carrying W2F identifiers.',
+            'Kernel claim only: monotonicity of the whole callVariant output in added variants / GVF files needs the '
+            'graph pipeline and is outside the claim; nodes are duck-typed stand-ins.'),
+    'C08': (True, CH,
+            'Transcript selection of callNovelORF equals the documented rule for all option values (biotype lists, '
+            '--coding-novel-orf, --min-tx-length, proteome membership); every peptide passes the pool filter; ORF FASTA '
+            'coordinates translate to the listed sequence (end = start + 3*len, frame = start % 3).',
+            'PARTIAL: that the peptides equal the definitional digest of every ATG-ORF needs the traversal (outside).'),
+    'C09': (True, CH,
+            'W>F enumeration: exactly the 2^w - 1 substitution sets with headers naming the substituted positions; SECT '
+            'pseudo-variant placed at the transcript interval of the Sec codon with the gene coordinate in its id.',
+            'PARTIAL: Sec truncation inside the traversal and "only through these events" are outside the claim.'),
+    'C15': (True, CH,
+            'STAR-Fusion, FusionCatcher and Arriba: convert -> shift to closest exon -> transcript mapping executed for '
+            'real; the donor and acceptor parts denoted by the record equal the breakpoint-defined parts (incl. retained '
+            'intronic bases) for every exon placement, strand and breakpoint (provenance of an arbitrary position).',
+            'GVF half only: that callVariant fusion peptides are digestion products of that sequence is outside the '
+            'claim; REF base content is stubbed.'),
+    'C18': (True, CH,
+            'Source-set order equals "fewer sources first, then lexicographic by priority" for unbounded symbolic '
+            'priorities; split decision for one peptide over every source assignment / priority order / max_groups / '
+            'additional split; merge union; encode/decoy header inverse and dictionary restore; label syntax round trip.',
+            'Kernel level: summarizeFasta totals vs split sizes (whole-file statement) is outside the claim.'),
+    'C20': (True, CH,
+            'Reversal and shuffle are rearrangements keeping every fixed position for all sequences of length <=5 and all '
+            'fixed sets (shuffle: arbitrary symbolic permutation); fixed-index rule for termini/listed residues; one '
+            'decoy per target, header, output order, order independence with a stateful RNG stand-in.',
+            'Known finding: trypsin cleavage residue not kept in place (known_findings.txt).'),
 }
 
 NOT_YET = 'no solver-based check built for this property in this revision of /verif'
